@@ -611,13 +611,14 @@ impl<'tcx> Cx<'tcx> {
             return None;
         }
         let some_arm = &inner_arms[1];
-        let hir::PatKind::TupleStruct(_, pats, _) = &some_arm.pat.kind else { return None };
-        if pats.len() != 1 {
-            return None;
-        }
+        let elem_pat: &'tcx hir::Pat<'tcx> = match &some_arm.pat.kind {
+            hir::PatKind::TupleStruct(_, pats, _) if pats.len() == 1 => &pats[0],
+            hir::PatKind::Struct(_, fields, _) if fields.len() == 1 => fields[0].pat,
+            _ => return None,
+        };
         let mut o = J::obj();
         o.set("k", J::s("for"));
-        o.set("pat", self.pat(&pats[0]));
+        o.set("pat", self.pat(elem_pat));
         o.set("iter", self.expr(&iargs[0]));
         o.set("body", self.expr(some_arm.body));
         Some(o)
